@@ -462,138 +462,6 @@ def classify_ap(cx, st, p):
         elif best == 'outside': best = 'band'
     return best
 
-# ------------------------------------------------------------------------------------------------ exact replay of SE / ST / FD
-class RSlot:
-    __slots__ = ('v', 'nb', 'cons', 'valid', 'a2')
-    def __init__(self, v, nb, cons, valid=True):
-        self.v = v; self.nb = nb; self.cons = cons; self.valid = valid; self.a2 = None
-
-class RState:
-    """structural copy of a state (vertex ids, neighbours, constraint flags) on which SE / ST / FD are replayed the way the crate
-    allocates slots (a conforming mesh without discarded slots is assumed)"""
-    def __init__(self, st=None):
-        self.slots = []
-        if st is not None:
-            for s in st.slots:
-                r = RSlot(tuple(s.v) if s.v is not None else None, list(s.nb), list(s.cons), s.valid)
-                r.a2 = s.a2
-                self.slots.append(r)
-
-    def first_invalid(self, start):
-        for k in range(start, len(self.slots)):
-            if not self.slots[k].valid: return k
-        return None
-
-    def push(self, v, start):
-        k = self.first_invalid(start)
-        r = RSlot(v, [None, None, None], [False, False, False])
-        if k is None:
-            self.slots.append(r); return len(self.slots) - 1
-        self.slots[k] = r
-        return k
-
-    def edge_of(self, j, x, y):
-        w = self.slots[j].v
-        for f in range(3):
-            if (w[f] == x and w[(f + 1) % 3] == y) or (w[f] == y and w[(f + 1) % 3] == x): return f
-        return None
-
-    def mark(self, i1, e1, i2):
-        v = self.slots[i1].v
-        f = self.edge_of(i2, v[e1], v[(e1 + 1) % 3])
-        if f is None: raise _Skip('replay-mismatch')
-        self.slots[i1].nb[e1] = i2
-        self.slots[i2].nb[f] = i1
-
-    def hemisphere(self, index, x, y, p):
-        s = self.slots[index]
-        e = self.edge_of(index, x, y)
-        if e is None: raise _Skip('replay-mismatch')
-        a, b, c = s.v[e], s.v[(e + 1) % 3], s.v[(e + 2) % 3]
-        s.valid = False
-        bc_n, ac_n = s.nb[(e + 1) % 3], s.nb[(e + 2) % 3]
-        ab_c, bc_c, ac_c = s.cons[e], s.cons[(e + 1) % 3], s.cons[(e + 2) % 3]
-        apc = self.push((a, p, c), index)
-        pbc = self.push((p, b, c), 0)
-        if ab_c: self.slots[apc].cons[0] = True
-        self.mark(apc, 1, pbc)
-        if ac_n is not None: self.mark(apc, 2, ac_n)
-        if ac_c: self.slots[apc].cons[2] = True
-        if ab_c: self.slots[pbc].cons[0] = True
-        if bc_n is not None: self.mark(pbc, 1, bc_n)
-        if bc_c: self.slots[pbc].cons[1] = True
-        return apc, pbc
-
-    def split_edge(self, i, e, p):
-        s = self.slots[i]
-        x, y = s.v[e], s.v[(e + 1) % 3]
-        nei = s.nb[e]
-        tl, tr = self.hemisphere(i, x, y, p)
-        if nei is not None:
-            br, bl = self.hemisphere(nei, x, y, p)
-            self.mark(tl, 0, bl)
-            self.mark(tr, 0, br)
-
-    def split_triangle(self, i, p):
-        s = self.slots[i]
-        a, b, c = s.v
-        nab, nbc, nca = s.nb
-        cab, cbc, cca = s.cons
-        s.valid = False
-        cap = self.push((c, a, p), 0)
-        abp = self.push((a, b, p), 0)
-        bcp = self.push((b, c, p), 0)
-        self.mark(cap, 1, abp); self.mark(abp, 1, bcp); self.mark(bcp, 1, cap)
-        if cca: self.slots[cap].cons[0] = True
-        if nca is not None: self.mark(cap, 0, nca)
-        if cab: self.slots[abp].cons[0] = True
-        if nab is not None: self.mark(abp, 0, nab)
-        if cbc: self.slots[bcp].cons[0] = True
-        if nbc is not None: self.mark(bcp, 0, nbc)
-
-    def flip(self, i, e):
-        s = self.slots[i]
-        j = s.nb[e]
-        t = self.slots[j]
-        a, b, c = s.v[e], s.v[(e + 1) % 3], s.v[(e + 2) % 3]
-        f = self.edge_of(j, a, b)
-        opp = t.v[(f + 2) % 3]
-        eac = self.edge_of(i, a, c); ecb = self.edge_of(i, c, b)
-        n_ac, c_ac = s.nb[eac], s.cons[eac]
-        n_bc, c_bc = s.nb[ecb], s.cons[ecb]
-        ebo = self.edge_of(j, b, opp); eao = self.edge_of(j, a, opp)
-        n_bo, c_bo = t.nb[ebo], t.cons[ebo]
-        n_ao, c_ao = t.nb[eao], t.cons[eao]
-        s.valid = False; t.valid = False
-        aoc = self.push((a, opp, c), i)
-        cob = self.push((c, opp, b), j)
-        if n_ao is not None: self.mark(i, 0, n_ao)
-        if c_ao: self.slots[aoc].cons[0] = True
-        self.mark(aoc, 1, cob)
-        if n_ac is not None: self.mark(i, 2, n_ac)
-        if c_ac: self.slots[aoc].cons[2] = True
-        if n_bo is not None: self.mark(cob, 1, n_bo)
-        if c_bo: self.slots[cob].cons[1] = True
-        if n_bc is not None: self.mark(cob, 2, n_bc)
-        if c_bc: self.slots[cob].cons[2] = True
-
-    def same_as(self, cx, st):
-        """the printed state has the replayed structure (vertices, neighbours, constraint flags, validity)"""
-        if len(self.slots) != len(st.slots): return False
-        for r, s in zip(self.slots, st.slots):
-            if r.valid != s.valid: return False
-            if not r.valid: continue
-            if tuple(cx.slot_vertices(s)) != tuple(r.v) or list(s.nb) != list(r.nb) or list(s.cons) != list(r.cons): return False
-        return True
-
-    def as_state(self, cx):
-        """a State-like view for the admissibility functions"""
-        st = State()
-        st.slots = self.slots
-        for r in self.slots:
-            if r.valid and r.a2 is None: r.a2 = tri_a2(cx, r.v)
-        return st
-
 # ------------------------------------------------------------------------------------------------ judging a history
 def state_text(g, kind):
     """group text 'ok S' / 'err S' / 'ok 0 S' -> (class, flag, S)"""
@@ -659,7 +527,6 @@ def judge_hist(ln):
     digest, loops_t, steps = parse_args(A)
     groups = split_groups(rhs)
     g0 = groups[0]
-    for s in steps: STATS[('seen', s[0])] += 1
     if not g0.startswith('ok '):
         return ('skip', 'no-initial-mesh')
     cx = Ctx()
@@ -712,11 +579,7 @@ def judge_hist(ln):
     r = conforming(cx, init)
     if r is None:
         # the area of the initial mesh is the area of the polygon (outer minus holes), exactly
-        pa = 0
-        for lp in cx.loops:
-            o = cx.P2[lp[0]]
-            pa2 = sum(orient2(o, cx.P2[lp[q]], cx.P2[lp[q + 1]]) for q in range(1, len(lp) - 1))
-            pa += abs(pa2) if lp is cx.loops[0] else -abs(pa2)
+        pa = polygon_a2(cx)
         if abs(init.suma2) != pa: r = ('area', 'the triangles have %.17g times the area of the polygon' % float(Fraction(abs(init.suma2), pa)))
     if r is not None:
         return ('fail', 'initial-mesh-not-conforming', 'from_polygon: %s: %s (this belongs to the from_polygon properties C01/C09)' % r)
@@ -731,6 +594,7 @@ def judge_hist(ln):
         kind = step[0]
         # ---------------- read-only step
         if kind == 'FA':
+            STATS[('reached', kind)] += 1
             r, jd, ended = judge_fa(cx, prev, step, g)
             if r:
                 STATS[('fail', kind)] += 1
@@ -749,6 +613,7 @@ def judge_hist(ln):
             adm = {'inside': 'adm', 'edge': 'adm', 'outside': 'adm', 'vertex': 'inadm', 'band': 'band'}[apc]
         else: adm = 'adm'
         what = describe(step)
+        STATS[('reached', kind)] += 1
         if g == 'panic' or g == 'fuel':
             if adm == 'adm':
                 STATS[('fail', kind)] += 1
@@ -776,6 +641,12 @@ def judge_hist(ln):
             if kind == 'AP' and apc == 'outside':
                 STATS[('fail', kind)] += 1
                 return ('fail', 'add-point-outside-changed-mesh', 'step %d (%s): the point lies in no triangle, add_point answered err but changed the mesh' % (k + 1, what))
+            # the step failed half-way or gave up: nothing is demanded of the mesh it leaves behind; when that mesh happens to be a
+            # conforming mesh of the polygon (without discarded slots) the history goes on from it, otherwise judging stops here
+            if conforming(cx, st) is None and not st.ninvalid and area_check(cx, area0, st.suma2, False, '') is None:
+                STATS[('err-left-conforming-mesh', kind)] += 1
+                prev = st
+                continue
             stop = 'stopped-after-err'
             STATS[('stopped-after-err', kind)] += 1
             break
@@ -817,16 +688,30 @@ def describe(step):
     return 'AP'
 
 # ------------------------------------------------------------------------------------------------ digest histories (d = 1)
-def digest_of(g, kind):
-    """'ok #h n v' / 'err #h n v' / 'ok 1 #h n v' -> (class, flag, (hash, slots, n_valid))"""
-    t = g.split(' ')
-    if t[0] == 'ok' and kind == 'AP' and len(t) == 5: return 'ok', t[1], (t[2], int(t[3]), int(t[4]))
-    if t[0] in ('ok', 'err') and len(t) == 4: return t[0], None, (t[1], int(t[2]), int(t[3]))
-    return g, None, None
+def polygon_a2(cx):
+    """twice the projected area of the polygon (outer loop minus holes), exact"""
+    pa = 0
+    for li, lp in enumerate(cx.loops):
+        o = cx.P2[lp[0]]
+        pa2 = sum(orient2(o, cx.P2[lp[q]], cx.P2[lp[q + 1]]) for q in range(1, len(lp) - 1))
+        pa += abs(pa2) if li == 0 else -abs(pa2)
+    return pa
 
 def judge_digest(cx, ln, steps, groups, final, panic_msg):
-    """only digests after every step: the state is tracked by an exact replay of SE / ST / FD (and of the steps whose digest shows that
-    they changed nothing); the final state is judged when the whole history could be followed and every step was admissible"""
+    """only digests after every step (not even the initial state is printed), so the admissibility of the steps cannot be decided and
+    nothing can be held against the crate.  The conclusion of the property can still be confirmed: when the final state is a conforming
+    mesh of the polygon the line satisfies the property whatever the steps were."""
+    if final is None: return ('skip', 'digest-history')
+    tot = 0
+    for s in final.slots:
+        if s.valid: tot += tri_a2(cx, cx.slot_vertices(s))
+    if tot == 0: return ('skip', 'digest-history')
+    cx.sg = sgn(tot)
+    r = conforming(cx, final)
+    if r is None and not final.ninvalid and abs(abs(final.suma2) - polygon_a2(cx)) * cx.tol['ON'] <= abs(final.suma2):
+        STATS[('digest-final-conforming', '')] += 1
+        return ('ok', '')
+    STATS[('digest-final-not-conforming-unjudged', '')] += 1
     return ('skip', 'digest-history')
 
 # ------------------------------------------------------------------------------------------------ is_convex
